@@ -24,6 +24,9 @@ def floats? (ws : List String) : Option (Array Float) :=
 
 def optF (x : Float) : Option Float := if x.isNaN || x.isInf then none else some x
 
+/-- curvature sees the raw pixel: only NaN is blank (±inf compare as IEEE values) -/
+def optNaN (x : Float) : Option Float := if x.isNaN then none else some x
+
 def b01 (b : Bool) : String := if b then "1" else "0"
 
 def showComp (c : Comp Float) : String :=
@@ -56,11 +59,10 @@ def handle (ws : List String) : String :=
     match [imgH, imgW, xmin, xmax, ymin, ymax, r0, c0, sh, sw].mapM String.toNat?, floats? rest with
     | some [imgH, imgW, xmin, xmax, ymin, ymax, r0, c0, sh, sw], some a =>
       if a.size != sh * sw then "bad-op" else
-      let img : Px → Float := fun p =>
+      let img : Px → Option Float := fun p =>
         if decide (r0 ≤ p.1) && decide (c0 ≤ p.2) && inGrid sh sw (p.1 - r0, p.2 - c0)
-        then a.getD (idx sw (p.1 - r0, p.2 - c0)) (0.0 / 0.0) else (0.0 / 0.0)
-      let cv := islandCurve imgH imgW xmin xmax ymin ymax img
-      showInts ((allPx (xmax - xmin) (ymax - ymin)).map cv)
+        then optNaN (a.getD (idx sw (p.1 - r0, p.2 - c0)) (0.0 / 0.0)) else none
+      showInts (islandCurveList imgH imgW xmin xmax ymin ymax img)
     | _, _ => "bad-op"
   | "est" :: h :: w :: inner :: outer :: maxS :: rest =>
     match h.toNat?, w.toNat?, parseFloat? inner, parseFloat? outer, maxS.toInt? with
